@@ -223,18 +223,96 @@ def B(v):
     raise Unsupported(f"B({v!r})")
 
 
+def _flat_mul(t_):
+    if z3.is_app(t_) and t_.decl().kind() == z3.Z3_OP_MUL:
+        out = []
+        for x in t_.children():
+            out += _flat_mul(x)
+        return out
+    return [t_]
+
+
+def _factor_out(term_, sb):
+    """term_ = k * sb (syntactically, sb itself possibly a product)  ->  k, else None"""
+    args = _flat_mul(term_)
+    need = _flat_mul(sb)
+    for y in need:
+        for i, x in enumerate(args):
+            if x.eq(y):
+                args = args[:i] + args[i + 1:]
+                break
+        else:
+            return None
+    if not args:
+        return z3.RealVal(1)
+    return args[0] if len(args) == 1 else z3.Product(*args)
+
+
+def factorize(t_):
+    """t_ -> list of factors (pulls common symbolic factors out of sums-of-monomials)"""
+    sa = z3.simplify(t_, som=True)
+    if z3.is_app(sa) and sa.decl().kind() == z3.Z3_OP_ADD:
+        first = _flat_mul(sa.children()[0])
+        for f in first:
+            if z3.is_rational_value(f) or z3.is_int_value(f):
+                continue
+            rest = cancel(sa, f)
+            if rest is not None:
+                return [f] + factorize(rest)
+        return [sa]
+    fs = _flat_mul(sa)
+    return fs
+
+
 def cancel(ta, tb):
-    """algebraic cancellation: (k * y) / y -> k ; None if the numerator is not such a product"""
+    """algebraic cancellation: (k1*y + k2*y + ...) / y -> k1 + k2 + ... ; None if y is not a syntactic
+    factor of every addend of the (sum-of-monomials normalised) numerator"""
     sa = z3.simplify(ta, som=True)
     sb = z3.simplify(tb, som=True)
-    if sa.eq(sb):
-        return z3.RealVal(1)
-    if z3.is_app(sa) and sa.decl().kind() == z3.Z3_OP_MUL:
-        args = sa.children()
-        for i, x in enumerate(args):
-            if x.eq(sb):
-                rest = args[:i] + args[i + 1:]
-                return rest[0] if len(rest) == 1 else z3.Product(*rest)
+    if z3.is_app(sa) and sa.decl().kind() == z3.Z3_OP_ITE:
+        x, y = cancel(sa.arg(1), sb), cancel(sa.arg(2), sb)
+        if x is not None and y is not None:
+            return z3.If(sa.arg(0), x, y)
+        return None
+    if z3.is_app(sa) and sa.decl().kind() == z3.Z3_OP_ADD:
+        parts = [_factor_out(x, sb) for x in sa.children()]
+        if all(p is not None for p in parts):
+            return z3.simplify(z3.Sum(*parts))
+        return None
+    return _factor_out(sa, sb)
+
+
+def int_of(t_):
+    """Real-sorted term that is syntactically integer-valued (sums/products of ToReal(int) and integer
+    numerals) -> the Int term; else None"""
+    if t_.sort() == z3.IntSort():
+        return t_
+    if z3.is_rational_value(t_):
+        f = t_.as_fraction()
+        return z3.IntVal(f.numerator) if f.denominator == 1 else None
+    if not z3.is_app(t_):
+        return None
+    k = t_.decl().kind()
+    if k == z3.Z3_OP_TO_REAL:
+        return t_.arg(0)
+    if k in (z3.Z3_OP_ADD, z3.Z3_OP_MUL, z3.Z3_OP_SUB, z3.Z3_OP_UMINUS):
+        parts = [int_of(c) for c in t_.children()]
+        if any(p is None for p in parts):
+            return None
+        if k == z3.Z3_OP_ADD:
+            return z3.Sum(*parts)
+        if k == z3.Z3_OP_MUL:
+            return z3.Product(*parts)
+        if k == z3.Z3_OP_SUB:
+            r = parts[0]
+            for p in parts[1:]:
+                r = r - p
+            return r
+        return -parts[0]
+    if k == z3.Z3_OP_ITE:
+        a, b = int_of(t_.arg(1)), int_of(t_.arg(2))
+        if a is not None and b is not None:
+            return z3.If(t_.arg(0), a, b)
     return None
 
 
@@ -366,15 +444,16 @@ class Engine:
         if z3.is_false(c):
             return False
         key = (len(s.pc), c.get_id())
-        if key in s.simp_cache:
-            return s.simp_cache[key]
+        hit = s.simp_cache.get(key)
+        if hit is not None and hit[0].eq(c):     # the stored term is kept alive, so its id cannot be reused
+            return hit[1]
         s.stats.simp_queries += 1
         r = None
         if s.oneshot(z3.Not(c), s.SIMP_TIMEOUT) == z3.unsat:
             r = True
         elif s.oneshot(c, s.SIMP_TIMEOUT) == z3.unsat:
             r = False
-        s.simp_cache[key] = r
+        s.simp_cache[key] = (c, r)
         return r
 
     # ---- scalar arithmetic
@@ -415,9 +494,13 @@ class Engine:
                 if pos is True:
                     return Sym(ta % tb, 'int', npf)
                 return Sym(z3.If(tb > 0, ta % tb, -((-ta) % (-tb))), 'int', npf)
-            # float remainder: a - b*floor(a/b)
+            # float remainder: a - b*floor(a/b); kept in the factored form b*(q - floor(q)) when q = a/b is explicit
             d = s.divide(ta, tb, npf)
-            fl = z3.ToReal(z3.ToInt(d.t))
+            if int_of(z3.simplify(d.t)) is not None:
+                return Sym(z3.RealVal(0), 'float', npf)
+            fl = z3.ToReal(s.floor_term(d.t))
+            if not (z3.is_const(d.t) and d.t.decl().name().startswith('div!')):
+                return Sym(tb * (d.t - fl), 'float', npf)
             return Sym(ta - tb * fl, 'float', npf)
         if op == '//':
             if rk == 'int':
@@ -429,7 +512,7 @@ class Engine:
                     return Sym(ta / tb, 'int', npf)
                 return Sym(z3.If(tb > 0, ta / tb, (-ta) / (-tb)), 'int', npf)
             d = s.divide(ta, tb, npf)
-            return Sym(z3.ToReal(z3.ToInt(d.t)), 'float', npf)
+            return Sym(z3.ToReal(s.floor_term(d.t)), 'float', npf)
         if op == '**':
             if isinstance(b, int) and not isinstance(b, bool) and b >= 0:
                 r = 1 if ka == 'int' else 1.0
@@ -577,6 +660,28 @@ class Engine:
     def absv(s, a):
         if is_conc_num(a):
             return abs(a)
+        if isinstance(a, Sym) and a.kind == 'float':
+            # |x*y*...| = |x|*|y|*... : factors of known sign (from the path condition) drop their abs
+            fs = factorize(a.t)
+            if len(fs) > 1:
+                out = []
+                for f in fs:
+                    if z3.is_rational_value(f) or z3.is_int_value(f):
+                        fr = f.as_fraction()
+                        out.append(z3.RealVal(str(abs(fr))))
+                        continue
+                    ge = s.decide(f >= 0)
+                    if ge is True:
+                        out.append(f)
+                    elif s.decide(f <= 0) is True:
+                        out.append(-f)
+                    else:
+                        it = int_of(f)
+                        if it is not None:
+                            out.append(z3.ToReal(z3.If(it >= 0, it, -it)))
+                        else:
+                            out.append(z3.If(f >= 0, f, -f))
+                return Sym(z3.Product(*out), 'float', a.np)
         return s.ite(s.cmp('>=', a, 0), a, s.neg(a))
 
     def minv(s, a, b):
@@ -586,6 +691,30 @@ class Engine:
     def maxv(s, a, b):
         c = s.cmp('>=', a, b)
         return s.ite(c, a, b)
+
+    def floor_term(s, t_):
+        """Int term equal to floor(t_) for a Real term: floor(I + r) = I + floor(r) for integer-valued I;
+        floor(r) is resolved to -1 / 0 when the path condition pins r into [-1,0) / [0,1)"""
+        sa = z3.simplify(t_, som=True)
+        it = int_of(sa)
+        if it is not None:
+            return z3.simplify(it)
+        addends = sa.children() if (z3.is_app(sa) and sa.decl().kind() == z3.Z3_OP_ADD) else [sa]
+        ints, rest = [], []
+        for x in addends:
+            ix = int_of(x)
+            (ints if ix is not None else rest).append(ix if ix is not None else x)
+        r = z3.Sum(*rest) if len(rest) > 1 else rest[0]
+        base = z3.Sum(*ints) if len(ints) > 1 else (ints[0] if ints else z3.IntVal(0))
+        fl = None
+        if ints or True:
+            for lo in (0, -1):
+                if s.decide(z3.And(r >= lo, r < lo + 1)) is True:
+                    fl = z3.IntVal(lo)
+                    break
+        if fl is None:
+            fl = z3.ToInt(r)
+        return z3.simplify(base + fl)
 
     def floor(s, a):
         if isinstance(a, bool):
@@ -598,13 +727,13 @@ class Engine:
             return fractions.Fraction(math.floor(a))
         if a.kind != 'float':
             return a
-        return Sym(z3.ToReal(z3.ToInt(a.t)), 'float', a.np)
+        return Sym(z3.ToReal(s.floor_term(a.t)), 'float', a.np)
 
     def ceil(s, a):
         if isinstance(a, Sym):
             if a.kind != 'float':
                 return a
-            return Sym(z3.ToReal(-z3.ToInt(-a.t)), 'float', a.np)
+            return Sym(z3.ToReal(-s.floor_term(-a.t)), 'float', a.np)
         if isinstance(a, int):
             return a
         if isinstance(a, fractions.Fraction):
@@ -620,12 +749,14 @@ class Engine:
                 return Sym(z3.If(a.t, z3.IntVal(1), z3.IntVal(0)), 'int', a.np)
             t = a.t
             # a term of the form ToReal(i) truncates to i
-            st = z3.simplify(t)
-            if z3.is_app(st) and st.decl().kind() == z3.Z3_OP_TO_REAL:
-                return Sym(st.arg(0), 'int', a.np)
+            it = int_of(z3.simplify(t))
+            if it is not None:
+                return Sym(z3.simplify(it), 'int', a.np)
             nonneg = s.decide(t >= 0)
             if nonneg is True:
-                return Sym(z3.ToInt(t), 'int', a.np)
+                return Sym(s.floor_term(t), 'int', a.np)
+            if s.decide(t <= 0) is True:
+                return Sym(-s.floor_term(-t), 'int', a.np)
             return Sym(z3.If(t >= 0, z3.ToInt(t), -z3.ToInt(-t)), 'int', a.np)
         if isinstance(a, fractions.Fraction):
             return int(a)
@@ -647,11 +778,10 @@ class Engine:
         if isinstance(a, Sym):
             if a.kind != 'float':
                 return a
-            st = z3.simplify(a.t)
-            if z3.is_app(st) and st.decl().kind() == z3.Z3_OP_TO_REAL:
-                return Sym(st, 'float', a.np)
+            if int_of(z3.simplify(a.t)) is not None:
+                return a
             # round defined through floor: r = fl if frac < 1/2, fl+1 if frac > 1/2, either on a tie
-            fl = z3.ToInt(a.t)
+            fl = s.floor_term(a.t)
             fr = a.t - z3.ToReal(fl)
             tie = s.fresh('tie', 'int')
             s.assume(z3.Or(tie.t == fl, tie.t == fl + 1))
